@@ -29,7 +29,7 @@ ASSUMPTIONS = [
   "contacts within 1e-4 of the inclusion margin are boundary-skipped; a MuJoCo flex pair truncated at mjMAXCONPAIR=50 is not used for the one-sided comparison",
   "tolerances: positions/lengths 2e-5*scale, edge velocity/J 1e-4, passive forces 5e-4*scale, rows J 5e-4 / pos 1e-4 / D, aref 2e-3 relative, contact geometry 1e-4 (plane, 1D) and 2e-3 (element narrow phase)",
 ]
-BUDGET = {"quick": dict(examples=200, seconds=150, workers=16), "thorough": dict(examples=12000, seconds=1500, workers=16)}
+BUDGET = {"quick": dict(examples=200, seconds=420, workers=16), "thorough": dict(examples=12000, seconds=1500, workers=16)}
 
 _CONTACT_TYPES = (5, 6, 7)
 _NCONMAX, _NJMAX = 600, 2400
